@@ -165,3 +165,8 @@ package ringqp
 
 //@ afunc Ring.NewRNSScalarFromUInt64
 //@   trusted opaque at the abstract level: a fresh scalar
+
+// Read back in the order written (C08): see /verif/cmd/lvc/fieldordercheck.go
+//@ fieldorder Poly
+//@   property C08
+//
